@@ -138,6 +138,21 @@ def opts_valid(kind, opts):
         return False
     if any(o.startswith('fmt=') for o in opts) and kind == 'ti':
         return False
+    for o in opts:
+        if o.startswith('fmtpos='):
+            idx = int(o[7:].split('~')[0])
+            if idx < -1:
+                return False
+            if kind in ('vi', 'vs'):
+                continue
+            if kind in ('ai', 'ri'):
+                if idx >= 4:
+                    return False
+            elif kind == 'ti':
+                if idx == -1 or idx >= 3:
+                    return False
+            else:
+                return False
     if kind == 'ms' and 'sep=2c' in opts:
         return False
     return True
@@ -278,6 +293,59 @@ def gen_cases(tier, rng):
                                     cases.append(make_case(kind + str((n + pos) % 4), o, u2[:k2] + [None] + u2[k2:],
                                                            s2[:k2] + ['F'] + s2[k2:]))
                         n += 1
+    # position formats (addFormatPos): the format follows the element that is filled, not the place of the value in
+    # its value string.  Deterministic blocks, both tiers.
+    def spellings(nuses, multi):
+        out = [['s'] * nuses, ['s'] + ['l'] * (nuses - 1)]
+        if multi and nuses > 1:
+            out.append(['s'] + ['f'] * (nuses - 1))
+            if nuses > 2:
+                out.append(['s', 'f', 'l'])
+                out.append(['l', 's', 'f'])
+        return out
+    TUP_FMTS = [['fmtpos=1~upper'], ['fmtpos=1~lower'], ['fmtpos=0~upper', 'fmtpos=2~lower'],
+                ['fmtpos=0~lower', 'fmtpos=1~upper', 'fmtpos=2~upper'], ['fmtpos=1~upper', 'fmtpos=1~lower'],
+                ['fmtpos=2~upper'], ['fmtpos=0~upper'],
+                ['fmtpos=3~upper'], ['fmtpos=-1~upper'], ['fmt=upper'], ['fmtpos=1~upper', 'fmtpos=3~lower']]
+    for fm in TUP_FMTS:
+        for seq in (['7', 'aBc', '9'], ['7', 'aBc'], ['7', 'aBc', '9', 'dEf'], ['xY', 'aBc', '9']):
+            for cut in cuts(seq):
+                for multi in (0, 1):
+                    o = fm + (['multi'] if multi else [])
+                    uses = [render_use(p_, ',', 0) for p_ in cut]
+                    for sp in spellings(len(uses), multi):
+                        cases.append(make_case('ti%d' % (len(cases) % 4), o, uses, sp))
+                    if multi and len(uses) == 3:
+                        cases.append(make_case('ti0', o, uses[:2] + [None] + uses[2:], 'sfFl'))
+    VS_FMTS = [['fmtpos=0~upper'], ['fmtpos=1~lower'], ['fmtpos=2~upper'],
+               ['fmtpos=0~upper', 'fmtpos=1~lower', 'fmtpos=2~upper'], ['fmt=lower', 'fmtpos=1~upper'],
+               ['fmtpos=1~upper', 'fmt=lower'], ['fmtpos=-1~upper'], ['fmtpos=3~lower', 'fmtpos=4~upper'],
+               ['fmtpos=1~upper', 'fmtpos=1~lower']]
+    for fm in VS_FMTS:
+        for init in (None, '6b~64', '4b'):
+            for base in ([], ['sort'], ['uniq'], ['uniq!'], ['sort', 'uniq'], ['clear']):
+                for seq in (['aB', 'Cd', 'eF'], ['aB', 'Ab', 'aB'], ['Zz', 'aB', 'zz', 'Ab']):
+                    for cut in cuts(seq):
+                        for multi in (0, 1):
+                            o = fm + base + (['multi'] if multi else []) + (['init=' + init] if init else [])
+                            uses = [render_use(p_, ',', 0) for p_ in cut]
+                            sps = spellings(len(uses), multi)
+                            sp = sps[(len(cases) + len(cut)) % len(sps)]
+                            cases.append(make_case('vs%d' % (len(cases) % 4), o, uses, sp))
+    for kind in ('vi', 'ai', 'ri'):
+        for fm in (['fmtpos=0~upper'], ['fmtpos=3~lower'], ['fmtpos=1~upper', 'fmtpos=2~lower'], ['fmtpos=-1~upper'],
+                   ['fmtpos=4~upper'], ['fmtpos=7~lower']):
+            for base in ([], ['sort'], ['uniq']):
+                for seq in (['3', '1', '2'], ['5', '0', '5', '0']):
+                    for cut in cuts(seq):
+                        uses = [render_use(p_, ',', 0) for p_ in cut]
+                        cases.append(make_case(kind + '2', fm + base + ['multi'], uses,
+                                               ['s'] + ['f' if j % 2 else 'l' for j in range(1, len(uses))]))
+    for kind in KINDS:
+        if kind not in ('vi', 'vs', 'ai', 'ri', 'ti'):
+            sep = ';' if kind == 'ms' else ','
+            for fm in (['fmtpos=0~upper'], ['fmtpos=-1~lower']):
+                cases.append(make_case(kind + '0', fm, [render_use(SEQS[seq_class(kind)][0], sep, 0)], 's'))
     # checks and formats reach every single element: a violating element at every position
     for kind in INT_LIST + ['ai', 'ri', 'bs', 'vb']:
         for extra in ([], ['multi'], ['uniq'] if kind in HAS_ITER else ['multi']):
@@ -361,6 +429,12 @@ def gen_cases(tier, rng):
                        'flag argument between the uses: 18 kinds x {plain, sort, uniq, clear} x multi on/off x 2 sequences x '
                        'every cut into <= 3 uses x every position of the flag x later uses keyed / free / mixed (+ the '
                        'flag twice, seeded)',
+                       'position formats: tuple<int,string,int> x 11 format sets (positions 0..2, two on one position, the '
+                       'refused ones: position 3, -1, addFormat) x 3 / 2 / 4 values x every cut x multi on/off x keyed / '
+                       'free / mixed spellings; vector<string> x 9 format sets (positions 0..4, general + position, '
+                       'addFormatPos(-1)) x initial content none / 1 / 2 elements x {plain, sort, uniq, uniq!, sort+uniq, '
+                       'clear} x 3 sequences x every cut x multi on/off; vector<int> and the arrays x 6 sets (incl. the '
+                       'refused positions >= N); one case per kind that refuses addFormatPos',
                        'violating element (check / conversion) at every position of a 4-element sequence x every cut',
                        'random: %d longer sequences with random cuts' % nrand]}
 
@@ -449,7 +523,23 @@ def expected(slot, opts, words, flag=None):
     uniq = 'uniq' in opts or 'uniq!' in opts
     dup_err = 'uniq!' in opts
     checks = [o[4:] for o in opts if o.startswith('chk=')]
-    fmts = [o[4:] for o in opts if o.startswith('fmt=')]
+    # general formats (addFormat, addFormatPos(-1)) in definition order; position formats per position
+    fmts = []
+    posf = {}
+    for o in opts:
+        if o.startswith('fmt='):
+            fmts.append(o[4:])
+        elif o.startswith('fmtpos='):
+            i_, f_ = o[7:].split('~')
+            if int(i_) == -1:
+                fmts.append(f_)
+            else:
+                posf.setdefault(int(i_), []).append(f_)
+
+    def fmt_at(pos, t):
+        for f in posf.get(pos, []):
+            t = t.upper() if f == 'upper' else t.lower()
+        return t
     init = None
     for o in opts:
         if o.startswith('init='):
@@ -534,7 +624,8 @@ def expected(slot, opts, words, flag=None):
             if clear and used:
                 cur = []
             for t in flat:
-                v = elem(t)
+                # the element lands at the current end of the vector: that position's format applies
+                v = fmt_at(len(cur), elem(t))
                 if uniq and v in cur:
                     if dup_err:
                         raise Refuse('duplicate')
@@ -551,7 +642,7 @@ def expected(slot, opts, words, flag=None):
             for t in flat:
                 if n >= 3:
                     raise Refuse('overflow')
-                t = elem(t)
+                t = fmt_at(n, elem(t))       # element n of the tuple: the format of position n, no other
                 if n == 1:
                     tup[1] = t
                 else:
@@ -726,6 +817,8 @@ def histogram_keys(case, mr):
     keys = [kind_of(slot) + ':' + mr.split(' ')[0]]
     nuse = sum(1 for w in words if not w.startswith('-'))
     keys.append('uses=%d' % nuse)
+    if any(o.startswith('fmtpos=') for o in opts):
+        keys.append('fmtpos:' + kind_of(slot) + ':' + mr.split(' ')[0])
     if flag:
         keys.append('flag-defined')
         if any(w in flag[1] for w in words):
